@@ -162,3 +162,104 @@ pub fn fml_run_file(path: &Path) -> CliRun {
 pub fn fml_run_stdin(src: &str) -> CliRun {
     run(Spec::new(&["run"]).stdin(src.as_bytes()))
 }
+
+/// Run with stdout redirected to a file (like `fml … > file`).
+pub fn run_stdout_to_file(spec: Spec, path: &Path) -> CliRun {
+    let exe = match spec.exe {
+        Some(p) => p.to_path_buf(),
+        None => std::env::current_exe().expect("current_exe"),
+    };
+    let file = match std::fs::File::create(path) {
+        Ok(f) => f,
+        Err(e) => return CliRun { stdout: vec![], stderr: vec![], code: None, signal: None, timed_out: false, spawn_error: Some(e.to_string()) },
+    };
+    let mut cmd = Command::new(exe);
+    cmd.args(&spec.args).stdout(Stdio::from(file)).stderr(Stdio::piped());
+    cmd.stdin(if spec.stdin.is_some() { Stdio::piped() } else { Stdio::null() });
+    cmd.env_remove("RUST_BACKTRACE");
+    let mut child = match cmd.spawn() {
+        Ok(c) => c,
+        Err(e) => return CliRun { stdout: vec![], stderr: vec![], code: None, signal: None, timed_out: false, spawn_error: Some(e.to_string()) },
+    };
+    if let Some(data) = spec.stdin {
+        let mut si = child.stdin.take().unwrap();
+        std::thread::spawn(move || {
+            let _ = si.write_all(&data);
+        });
+    }
+    let mut se = child.stderr.take().unwrap();
+    let t_err = std::thread::spawn(move || {
+        let mut v = Vec::new();
+        let _ = se.read_to_end(&mut v);
+        v
+    });
+    let start = Instant::now();
+    let mut timed_out = false;
+    let status = loop {
+        match child.try_wait() {
+            Ok(Some(s)) => break Some(s),
+            Ok(None) => {
+                if start.elapsed() > spec.timeout {
+                    timed_out = true;
+                    let _ = child.kill();
+                    break child.wait().ok();
+                }
+                std::thread::sleep(Duration::from_micros(300));
+            }
+            Err(_) => break None,
+        }
+    };
+    let stderr = t_err.join().unwrap_or_default();
+    let stdout = std::fs::read(path).unwrap_or_default();
+    let (code, signal) = match status {
+        Some(s) => (s.code(), s.signal()),
+        None => (None, None),
+    };
+    CliRun { stdout, stderr, code, signal: if timed_out { None } else { signal }, timed_out, spawn_error: None }
+}
+
+/// Run with stdout on a pipe that the harness drains slowly in small reads.
+pub fn run_slow_drain(spec: Spec, chunk: usize, pause: Duration) -> CliRun {
+    let exe = match spec.exe {
+        Some(p) => p.to_path_buf(),
+        None => std::env::current_exe().expect("current_exe"),
+    };
+    let mut cmd = Command::new(exe);
+    cmd.args(&spec.args).stdout(Stdio::piped()).stderr(Stdio::piped()).stdin(Stdio::null());
+    cmd.env_remove("RUST_BACKTRACE");
+    let mut child = match cmd.spawn() {
+        Ok(c) => c,
+        Err(e) => return CliRun { stdout: vec![], stderr: vec![], code: None, signal: None, timed_out: false, spawn_error: Some(e.to_string()) },
+    };
+    let mut so = child.stdout.take().unwrap();
+    let mut se = child.stderr.take().unwrap();
+    let t_err = std::thread::spawn(move || {
+        let mut v = Vec::new();
+        let _ = se.read_to_end(&mut v);
+        v
+    });
+    let mut out = Vec::new();
+    let mut buf = vec![0u8; chunk.max(1)];
+    let start = Instant::now();
+    let mut timed_out = false;
+    loop {
+        match so.read(&mut buf) {
+            Ok(0) => break,
+            Ok(n) => out.extend_from_slice(&buf[..n]),
+            Err(_) => break,
+        }
+        if start.elapsed() > spec.timeout {
+            timed_out = true;
+            let _ = child.kill();
+            break;
+        }
+        std::thread::sleep(pause);
+    }
+    let status = child.wait().ok();
+    let stderr = t_err.join().unwrap_or_default();
+    let (code, signal) = match status {
+        Some(s) => (s.code(), s.signal()),
+        None => (None, None),
+    };
+    CliRun { stdout: out, stderr, code, signal: if timed_out { None } else { signal }, timed_out, spawn_error: None }
+}
